@@ -388,3 +388,238 @@ Proof.
   - now injection H as <-.
   - destruct (step esc s l) eqn:E; [|discriminate]. eapply IH; [|exact H]. eapply reach_step; eauto.
 Qed.
+
+(* ---- the measure ------------------------------------------------------------------------------------------------ *)
+
+Lemma caller_lt s c : Inv s -> callers s c <> CNone -> c < nc s.
+Proof. intros HI H. destruct (le_lt_dec (nc s) c) as [Hle|]; [|assumption]. now apply (I_nc s HI) in Hle. Qed.
+
+Lemma path_lt s p : Inv s -> ppc (paths s p) <> PaDead -> p < np s.
+Proof.
+  intros HI H. destruct (le_lt_dec (np s) p) as [Hle|]; [|assumption].
+  apply (I_np s HI) in Hle. rewrite Hle in H. now elim H.
+Qed.
+
+Lemma measure_set_pm s x : measure (set_pm s x) + w_pm (pm s) = measure s + w_pm x.
+Proof. unfold measure, set_pm; simpl. lia. Qed.
+
+Lemma measure_set_caller s c x :
+  c < nc s -> measure (set_caller s c x) + w_caller (callers s c) = measure s + w_caller x.
+Proof.
+  intros H. unfold measure, set_caller; simpl.
+  pose proof (sum_upto_upd_in (nc s) (callers s) w_caller c x H). lia.
+Qed.
+
+Lemma measure_set_path s p x :
+  p < np s -> measure (set_path s p x) + w_path (paths s p) = measure s + w_path x.
+Proof.
+  intros H. unfold measure, set_path; simpl.
+  pose proof (sum_upto_upd_in (np s) (paths s) w_path p x H). lia.
+Qed.
+
+Lemma measure_set_path_same s p x : w_path x = w_path (paths s p) -> measure (set_path s p x) = measure s.
+Proof.
+  intros Hw. unfold measure, set_path; simpl. f_equal. f_equal. f_equal.
+  apply sum_upto_ext. intros i _. unfold upd. destruct (Nat.eqb_spec i p); subst; auto.
+Qed.
+
+Lemma wf_script_calls w sc : wf_script w sc = true -> pm_calls sc <= 3.
+Proof.
+  unfold wf_script, max_pm_calls. intros H. apply andb_true_iff in H. destruct H as [_ H]. now apply Nat.leb_le in H.
+Qed.
+
+Ltac msr :=
+  repeat match goal with
+         | |- context [measure (set_pm ?s ?x)] =>
+             let H := fresh in pose proof (measure_set_pm s x) as H; revert H; generalize (measure (set_pm s x))
+         | |- context [measure (set_caller ?s ?c ?x)] =>
+             let H := fresh in
+             assert (H : measure (set_caller s c x) + w_caller (callers s c) = measure s + w_caller x)
+               by (apply measure_set_caller; simpl; apply caller_lt; [assumption|simpl; congruence]);
+             revert H; generalize (measure (set_caller s c x))
+         | |- context [measure (set_path ?s ?p ?x)] =>
+             let H := fresh in
+             assert (H : measure (set_path s p x) + w_path (paths s p) = measure s + w_path x)
+               by (apply measure_set_path; simpl; apply path_lt; [assumption|simpl; congruence]);
+             revert H; generalize (measure (set_path s p x))
+         end.
+
+Ltac rew_eqs :=
+  repeat match goal with
+         | H : callers _ _ = _ |- _ => rewrite H in *; clear H
+         | H : pm _ = _ |- _ => rewrite H in *; clear H
+         | H : ppc (paths _ _) = _ |- _ => rewrite H in *; clear H
+         | H : script (paths _ _) = _ |- _ => rewrite H in *; clear H
+         | H : held (paths _ _) = _ |- _ => rewrite H in *; clear H
+         | H : closer _ = _ |- _ => rewrite H in *; clear H
+         end.
+
+Lemma measure_step esc s l s' :
+  Inv s -> internal l = true -> step esc s l = Some s' -> measure s' < measure s.
+Proof.
+  intros HI Hint H. destruct l; try discriminate Hint; clear Hint; simpl in H; step_inv H.
+  all: try (match goal with H : wf_script _ _ = true |- _ => apply wf_script_calls in H end).
+  all: try (msr; intros; simp_state; unfold w_path in *; simp_state; rew_eqs; simpl in *; lia).
+  - (* createPath *)
+    unfold measure; cbn [pm_ctx pm np paths nc callers closer sum_upto].
+    rewrite sum_upto_upd_out by lia. rewrite upd_same. rewrite Heqp.
+    generalize (sum_upto (np s) (fun j => w_path (paths s j))).
+    generalize (sum_upto (nc s) (fun c0 => w_caller (callers s c0))). intros a b.
+    apply Nat.leb_le in Heqb. unfold max_pm_calls in Heqb.
+    unfold w_path, new_path; cbn [ppc script w_pm]. lia.
+  - (* pa.close() *)
+    rewrite measure_set_path_same by reflexivity.
+    pose proof (measure_set_pm s (PmWait p l)) as Hm. rewrite Heqp in Hm. cbn [w_pm length] in Hm. lia.
+  - destruct k; msr; intros; rew_eqs; simpl in *; lia.
+  - unfold measure; simpl. rewrite Heqc. simpl. lia.
+Qed.
+
+(* ---- progress ----------------------------------------------------------------------------------------------------- *)
+
+Definition can_step (s : state) : Prop := exists l s', internal l = true /\ step true s l = Some s'.
+
+Lemma bounded_search (P : nat -> Prop) n :
+  (forall i, P i \/ ~ P i) -> (forall i, i < n -> P i) \/ (exists i, i < n /\ ~ P i).
+Proof.
+  intros Hdec. induction n as [|k IH].
+  - left. intros i Hi. lia.
+  - destruct IH as [IH|[i [Hi Hn]]].
+    + destruct (Hdec k) as [Hk|Hk].
+      * left. intros i Hi. destruct (Nat.eq_dec i k); [subst; auto|apply IH; lia].
+      * right. exists k. split; [lia|auto].
+    + right. exists i. split; [lia|auto].
+Qed.
+
+Lemma pa_quiet_dec s p : pa_quiet s p \/ ~ pa_quiet s p.
+Proof.
+  unfold pa_quiet. destruct (ppc (paths s p)); try (right; intros [[H _]|H]; discriminate).
+  - destruct (script (paths s p)); [|right; intros [[_ [H _]]|H]; discriminate].
+    destruct (pa_done s p); [right; intros [[_ [_ H]]|H]; discriminate|left; left; auto].
+  - left; right; reflexivity.
+Qed.
+
+Lemma c_quiet_dec s c : c_quiet s c \/ ~ c_quiet s c.
+Proof.
+  unfold c_quiet. destruct (callers s c); try (left; exact I); try (right; intros []).
+  destruct (in_dec Nat.eq_dec c (held (paths s p))); [left|right]; auto.
+Qed.
+
+Ltac do_step l :=
+  exists l; eexists; split; [reflexivity|]; simpl; simp_state;
+  repeat match goal with
+         | H : _ = _ |- _ => rewrite H
+         end; simpl; try rewrite Nat.eqb_refl; try reflexivity.
+
+Lemma path_step s p :
+  Inv s -> pm s = PmIdle \/ pm_ctx s = true \/ pctx (paths s p) = true -> ~ pa_quiet s p -> can_step s.
+Proof.
+  intros HI Hpm Hnq. unfold pa_quiet in Hnq.
+  assert (Hesc : pm s = PmIdle \/ pa_escape true s p = true).
+  { unfold pa_escape. destruct Hpm as [H|[H|H]]; [left; auto|right; rewrite H; auto|right; rewrite H; simpl; apply orb_true_r]. }
+  clear Hpm.
+  destruct (ppc (paths s p)) eqn:Epc.
+  - destruct (script (paths s p)) as [|[c|k] sc] eqn:Esc.
+    + destruct (pa_done s p) eqn:Ed; [|exfalso; apply Hnq; left; auto].
+      exists (LPaCtx p). eexists. split; [reflexivity|]. simpl. rewrite Epc, Esc, Ed. reflexivity.
+    + assert (Hc : callers s c = CWaitPa p).
+      { apply (I_wait s HI). unfold waiting. rewrite Esc. simpl. apply in_app_iff. right. now left. }
+      exists (LPaAns p). eexists. split; [reflexivity|]. simpl. rewrite Epc, Esc, Hc, Nat.eqb_refl. reflexivity.
+    + destruct Hesc as [Hi|He].
+      * exists (LPaPm p false). eexists. split; [reflexivity|]. simpl. rewrite Epc, Esc, Hi. reflexivity.
+      * exists (LPaPmEsc p). eexists. split; [reflexivity|]. simpl. rewrite Epc, Esc, He. reflexivity.
+  - destruct Hesc as [Hi|He].
+    + exists (LPaTRemPm p). eexists. split; [reflexivity|]. simpl. rewrite Epc, Hi. reflexivity.
+    + exists (LPaTRemEsc p). eexists. split; [reflexivity|]. simpl. rewrite Epc, He. reflexivity.
+  - destruct (held (paths s p)) as [|c r] eqn:Eh.
+    + exists (LPaTFin p false). eexists. split; [reflexivity|]. simpl. rewrite Epc, Eh. reflexivity.
+    + assert (Hc : callers s c = CWaitPa p).
+      { apply (I_wait s HI). unfold waiting. rewrite Eh. now left. }
+      exists (LPaTAns p). eexists. split; [reflexivity|]. simpl. rewrite Epc, Eh, Hc, Nat.eqb_refl. reflexivity.
+  - destruct Hesc as [Hi|He].
+    + exists (LPaTNrPm p). eexists. split; [reflexivity|]. simpl. rewrite Epc, Hi. reflexivity.
+    + exists (LPaTNrEsc p). eexists. split; [reflexivity|]. simpl. rewrite Epc, He. reflexivity.
+  - exfalso. apply Hnq. right. reflexivity.
+Qed.
+
+Lemma caller_step s c :
+  Inv s -> pm s = PmIdle \/ pm s = PmDone -> (forall p, pa_quiet s p) -> ~ c_quiet s c -> can_step s.
+Proof.
+  intros HI Hpm Hq Hnq. unfold c_quiet in Hnq.
+  destruct (callers s c) as [|k| |p|p|r] eqn:Ec; try (exfalso; apply Hnq; exact I).
+  - destruct Hpm as [Hi|Hd].
+    + destruct k as [|ps].
+      * exists (LPmRecv c). eexists. split; [reflexivity|]. simpl. rewrite Hi, Ec. reflexivity.
+      * exists (LPmReload c). eexists. split; [reflexivity|]. simpl. rewrite Hi, Ec. reflexivity.
+    + pose proof (I_done s HI Hd) as Hctx.
+      exists (LCEscPm c). eexists. split; [reflexivity|]. simpl. rewrite Ec, Hctx. reflexivity.
+  - exfalso. apply (I_pmh s HI) in Ec. destruct Hpm as [H|H]; rewrite H in Ec; discriminate.
+  - destruct (Hq p) as [[Hpc [Hsc Hd]]|Hdead].
+    + exists (LPaRecv c []). eexists. split; [reflexivity|]. simpl. rewrite Ec, Hpc, Hsc. reflexivity.
+    + assert (Hd : pa_done s p = true).
+      { unfold pa_done. rewrite (I_term2 s HI p) by auto. apply orb_true_r. }
+      exists (LCEscPa c). eexists. split; [reflexivity|]. simpl. rewrite Ec, Hd. reflexivity.
+  - exfalso. apply Hnq. apply (I_wait s HI) in Ec. unfold waiting in Ec.
+    destruct (Hq p) as [[Hpc [Hsc Hd]]|Hdead].
+    + rewrite Hsc in Ec. simpl in Ec. now rewrite app_nil_r in Ec.
+    + rewrite (I_held s HI p), (I_script s HI p) in Ec by (auto; congruence). destruct Ec.
+Qed.
+
+Lemma all_paths_quiet s : Inv s -> (forall p, p < np s -> pa_quiet s p) -> forall p, pa_quiet s p.
+Proof.
+  intros HI H p. destruct (le_lt_dec (np s) p) as [Hle|Hlt]; [|auto].
+  right. now rewrite (I_np s HI p Hle).
+Qed.
+
+Lemma all_callers_quiet s : Inv s -> (forall c, c < nc s -> c_quiet s c) -> forall c, c_quiet s c.
+Proof.
+  intros HI H c. destruct (le_lt_dec (nc s) c) as [Hle|Hlt]; [|auto].
+  unfold c_quiet. now rewrite (I_nc s HI c Hle).
+Qed.
+
+Lemma progress s : Inv s -> quiescent s \/ can_step s.
+Proof.
+  intros HI. destruct (pm s) as [|c|c r|ps|p ps|] eqn:Epm.
+  - (* main select *)
+    destruct (pm_ctx s) eqn:Ectx.
+    { right. exists LPmStop. eexists. split; [reflexivity|]. simpl. rewrite Epm, Ectx. reflexivity. }
+    destruct (bounded_search (pa_quiet s) (np s) (pa_quiet_dec s)) as [Hpq|[p [_ Hp]]];
+      [|right; eapply path_step; eauto].
+    pose proof (all_paths_quiet s HI Hpq) as Hpq'.
+    destruct (bounded_search (c_quiet s) (nc s) (c_quiet_dec s)) as [Hcq|[c [_ Hc]]];
+      [|right; eapply caller_step; eauto].
+    left. repeat split; auto.
+    + left. auto.
+    + apply all_callers_quiet; auto.
+    + intros Hcl. assert (Hx : pm_ctx s = true) by (apply (I_cl s HI); congruence). congruence.
+  - right. exists (LPmHandled HErr). eexists. split; [reflexivity|]. simpl. rewrite Epm. reflexivity.
+  - right. assert (Hc : callers s c = CWaitPm) by (apply (I_pmh s HI); rewrite Epm; reflexivity).
+    exists LPmAns. eexists. split; [reflexivity|]. simpl. rewrite Epm, Hc. reflexivity.
+  - right. destruct ps as [|p ps].
+    + exists LPmCloseEnd. eexists. split; [reflexivity|]. simpl. rewrite Epm. reflexivity.
+    + exists LPmCloseHd. eexists. split; [reflexivity|]. simpl. rewrite Epm. reflexivity.
+  - (* pa.wait() *)
+    right. pose proof (I_pmwait s HI p ps Epm) as Hctx.
+    destruct (ppc (paths s p)) eqn:Epc;
+      try (apply (path_step s p HI); [auto|];
+           unfold pa_quiet, pa_done; rewrite Epc, Hctx, orb_true_r; intros [[H1 [H2 H3]]|H1]; discriminate).
+    exists LPmWaitDone. eexists. split; [reflexivity|]. simpl. rewrite Epm. unfold is_dead. rewrite Epc. reflexivity.
+  - (* the path manager has terminated *)
+    pose proof (I_done s HI Epm) as Ectx.
+    destruct (bounded_search (pa_quiet s) (np s) (pa_quiet_dec s)) as [Hpq|[p [_ Hp]]];
+      [|right; eapply path_step; eauto].
+    pose proof (all_paths_quiet s HI Hpq) as Hpq'.
+    destruct (bounded_search (c_quiet s) (nc s) (c_quiet_dec s)) as [Hcq|[c [_ Hc]]];
+      [|right; eapply caller_step; eauto].
+    destruct (closer s) eqn:Ecl.
+    + exfalso. apply (I_cl s HI) in Ectx. congruence.
+    + right. exists LClDone. eexists. split; [reflexivity|]. simpl. rewrite Ecl, Epm.
+      assert (Hall : forallb (fun p => is_dead (paths s p)) (seq 0 (np s)) = true).
+      { apply forallb_forall. intros p _. unfold is_dead.
+        destruct (Hpq' p) as [[_ [_ Hd]]|Hd]; [|now rewrite Hd].
+        unfold pa_done in Hd. rewrite Ectx in Hd. discriminate. }
+      rewrite Hall. reflexivity.
+    + left. repeat split; auto.
+      * right. exact Epm.
+      * apply all_callers_quiet; auto.
+      * unfold cl_quiet. congruence.
+Qed.
